@@ -54,7 +54,25 @@ CLAIM = dict(
           "not applied when an automatically sized field has max_value >= 2^44 (its width is then the implementation's "
           "choice).  Explicit start positions "
           "are non-negative (documented 0-based index).  A RecursionError of _Tree.add_field (instance values selecting "
-          "fields of two children of one node) is modelled as an error and ends the history."),
+          "fields of two children of one node) is modelled as an error and ends the history.  "
+          "HARDENING (what the streams do, and what is left out on purpose): every call may use other argument kinds "
+          "(values / lengths / positions / the bit-field length as bool or IntEnum members; tags as None, str, list, tuple, "
+          "set, frozenset, generator, iterator, dict view, incl. the tags '', '%s', '{}', 't 0'), other calling conventions "
+          "(positional / mixed / keyword for add_field, getters and the constructor, BitField() default length), a "
+          "subclass of BitField as root (derived instances must be of that class and share tree and length: compared as "
+          "part of the correspondence, not a property violation), the caller editing the tag container it passed and the "
+          "tag set it was handed back (and keeping those sets until the end), two bit fields alive and used alternately "
+          "(twins differing in one aspect, both orders), rig.bitfield re-executed at the start of every case so a replay "
+          "carries its whole history, every implementation call under a CPU limit (did-not-return), and scale cases (300 "
+          "neighbouring fields, 257 sibling scopes, a 100-deep chain, 600 instances, 500-bit fields in 1100 bits).  Left "
+          "out: numpy integers (rig never passes them to BitField; np.int64 << start wraps beyond 63 bits - outside the "
+          "documented int domain); identifiers other than str (they are keyword names of __call__); bytes kinds, "
+          "generators handed back, external faults, machine configuration (bitfield.py has none; failed add_field / "
+          "__call__ / assign_fields followed by continued use is the ordinary error stream); the internal-only parameters "
+          "_fields, _field_values, assigned_bits stay at their defaults; tag and field together (documented error); the "
+          "keyword dict of __call__ is copied by the language; hierarchies deeper than ~100 (building a 373-deep chain "
+          "already takes 2 CPU-minutes - cubic - so Python's recursion limit near depth 1000 is out of practical reach); "
+          "nothing in bitfield.py is counted in 8 or 16 bits."),
     technique="Lean 4 theorems over a hand-written model + differential correspondence on histories + Lean spec predicates as oracle")
 
 THEOREMS = ["max_value_default", "inv_init", "inv_addField", "inv_call", "inv_assignFields", "reachable_inv",
@@ -75,7 +93,13 @@ RULE = ("histories of 6-40 operations generated against the running implementati
         "tight for the hierarchy in half of the cases; plus a wide stream: bit fields of 64-160 bits (and the exact-fit / "
         "one-bit-short re-runs) with 2-5 automatically sized neighbouring fields (and one in a child scope) whose largest "
         "values are 2^k - 1, 2^k, 2^k + 1 for k in 0..100 biased to 30..70, several complete instances, and fixed "
-        "boundary cases k in {44,47,48,49,50,52,53,63,64,65,80,100}; a case is non-trivial when it has >= 2 scopes, a successful "
+        "boundary cases k in {44,47,48,49,50,52,53,63,64,65,80,100}; in 40 % of the histories every call draws its "
+        "argument kinds and calling convention (recorded in the op), 30 % build the bit field another way (keyword / "
+        "default / IntEnum length, subclass); one history in ten is also run interleaved op by op with a twin (one "
+        "length / value / tag / position / op / bit-field length changed) or the previous history on a second live bit "
+        "field (both checked against their own model run); 3 (quick) or 5 scale cases per run; rig.bitfield is "
+        "re-executed before every case; every implementation call runs under a CPU limit of 5 s; keys, masks and "
+        "positions are read back at the end of each history, before the next one starts; a case is non-trivial when it has >= 2 scopes, a successful "
         "assign_fields and >= 1 complete key checked by the oracle; distinct = distinct canonical JSON of the history")
 
 IDENTS = list("abcdefgh")
@@ -86,15 +110,118 @@ MAXV = 2 ** 40
 # --------------------------------------------------------------------------
 # implementation side
 # --------------------------------------------------------------------------
+def _i(x):
+    """ints of every kind (bool, IntEnum member) are compared as plain ints"""
+    return None if x is None else int(x)
+
+
 def dump_tree(tree, path=()):
     out = []
     for ident, f in tree.fields.items():
-        out.append({"path": [list(map(list, k)) for k in path], "ident": ident,
-                    "length": f.length, "start": f.start_at,
-                    "tags": sorted(f.tags), "max": f.max_value})
+        out.append({"path": [[[i, _i(v)] for i, v in k] for k in path], "ident": ident,
+                    "length": _i(f.length), "start": _i(f.start_at),
+                    "tags": sorted(f.tags), "max": _i(f.max_value)})
     for key, child in tree.children.items():
         out.extend(dump_tree(child, path + (tuple(key),)))
     return out
+
+
+_ENUMS = {}
+_HANGS = [0]
+
+
+def cpu_limit():
+    """every model function is a total Lean definition (terminates); a call of the implementation normally takes well
+    under 50 ms (the scale cases, run first: < 1 s): one still running after 5 s of CPU time has not returned (1 s after 6
+    hangs, 0.2 s after 20; after 60 the run stops generating)"""
+    from harness import common
+    return common.cpu_limit(5 if _HANGS[0] < 6 else 1 if _HANGS[0] < 20 else 0.2)
+
+
+def as_kind(v, kind):
+    """the same integer as a bool / an IntEnum member"""
+    if v is None or kind in (None, "int"):
+        return v
+    if kind == "bool":
+        return bool(v) if v in (0, 1) else v
+    if kind == "enum":
+        if v not in _ENUMS:
+            import enum
+            _ENUMS[v] = enum.IntEnum("E%d" % len(_ENUMS), {"M": v}).M
+        return _ENUMS[v]
+    raise KeyError(kind)
+
+
+def tags_as(tags, kind):
+    """the tags argument of add_field in every documented form"""
+    tags = list(tags)
+    if kind in (None, "list"):
+        return tags
+    if kind == "none":
+        return None
+    if kind == "str":
+        return " ".join(tags)
+    if kind == "tuple":
+        return tuple(tags)
+    if kind == "set":
+        return set(tags)
+    if kind == "frozenset":
+        return frozenset(tags)
+    if kind == "gen":
+        return (t for t in tags)
+    if kind == "iter":
+        return iter(tags)
+    if kind == "keys":
+        return dict.fromkeys(tags).keys()
+    raise KeyError(kind)
+
+
+def decorate(rng, op):
+    """argument kinds / calling conventions of one call (recorded in the op: a replay reproduces them)"""
+    kind = op["op"]
+    k = {}
+    if kind == "add":
+        tags = op["tags"]
+        plain = all(t and not any(c.isspace() for c in t) for t in tags)
+        kinds = ["list", "tuple", "set", "frozenset", "gen", "iter", "keys"]
+        if plain:
+            kinds += ["str", "str"]
+        if not tags:
+            kinds += ["none", "none", "none"]
+        k["tags"] = rng.choice(kinds)
+        k["conv"] = rng.choice(["kw", "kw", "pos", "mixed"])
+        for a in ("length", "start"):
+            v = op[a]
+            if v is not None and rng.random() < 0.3:
+                k[a] = "bool" if v in (0, 1) and rng.random() < 0.5 else "enum"
+        k["edit"] = rng.random() < 0.6
+    elif kind == "call":
+        k["v"] = [("bool" if v in (0, 1) and rng.random() < 0.5 else "enum") if rng.random() < 0.3 else "int"
+                  for _, v in op["kw"]]
+    elif kind in ("value", "mask"):
+        k["conv"] = rng.choice(["kw", "pos", "pos1"])
+    elif kind == "tags":
+        k["edit"] = rng.random() < 0.7
+        k["conv"] = rng.choice(["kw", "pos"])
+    elif kind == "loc":
+        k["conv"] = rng.choice(["kw", "pos"])
+    return k
+
+
+_CODE = {}
+
+
+def reload_rig():
+    """start of a case: a freshly loaded rig.bitfield (no module- / class-level state of earlier cases)"""
+    import sys
+    m = sys.modules.get("rig.bitfield")
+    if m is None:
+        import rig.bitfield as m
+    f = m.__file__
+    if f not in _CODE:
+        with open(f) as fh:
+            _CODE[f] = compile(fh.read(), f, "exec")
+    exec(_CODE[f], m.__dict__)      # what importlib.reload does, with the source compiled once (0.3 ms)
 
 
 def err_name(e):
@@ -119,13 +246,18 @@ def probe_len(max_value):
     bit field; a deterministic function of max_value); None if it cannot be observed"""
     if max_value not in _PROBE:
         from rig.bitfield import BitField
+        from harness import common
         try:
-            b = BitField(max(1, max_value).bit_length() + 8)
-            b.add_field("p")
-            b(p=max_value)
-            b.assign_fields()
-            _PROBE[max_value] = b.get_location_and_length("p")[1]
+            with cpu_limit():
+                b = BitField(max(1, max_value).bit_length() + 8)
+                b.add_field("p")
+                b(p=max_value)
+                b.assign_fields()
+                _PROBE[max_value] = _i(b.get_location_and_length("p")[1])
         except (ValueError, LookupError, ArithmeticError, OverflowError, TypeError):
+            _PROBE[max_value] = None
+        except common.ImplHang:
+            _HANGS[0] += 1
             _PROBE[max_value] = None
     return _PROBE[max_value]
 
@@ -142,26 +274,60 @@ def spare_hints(dump):
 
 
 class Runner(object):
-    """Runs a history on the real BitField; instance i = i-th successfully created instance."""
+    """Runs a history on the real BitField; instance i = i-th successfully created instance.
+    `root`: how the bit field is constructed ({"sub": subclass of BitField, "ctor": "pos" | "kw" | "default"})."""
 
-    def __init__(self, length):
+    def __init__(self, length, root=None, decor=None):
         from rig.bitfield import BitField
         self.length = length
-        self.root = BitField(length)
+        self.rootopts = dict(root or {})
+        cls = BitField
+        if self.rootopts.get("sub"):
+            class SubBitField(BitField):
+                """a user's subclass: derived instances must be of this class and share the tree"""
+                flavour = "sub"
+
+                def flavoured(self):
+                    return (self.flavour, self.length)
+            cls = SubBitField
+        ctor = self.rootopts.get("ctor", "pos")
+        if ctor == "default" and length == 32:
+            self.root = cls()
+        elif ctor == "kw":
+            self.root = cls(length=as_kind(length, self.rootopts.get("lkind")))
+        else:
+            self.root = cls(as_kind(length, self.rootopts.get("lkind")))
+        self.cls = cls
+        self.decor = decor        # rng: choose argument kinds / calling conventions while generating
         self.insts = [self.root]
         self.results = []
         self.ops = []
         self.dead = False         # after a RecursionError the tree is garbage
+        self.hung = None          # (op index, where) of a call that did not return
         self.pre_assign = []      # (op index, dump before assign_fields)
+        self.kept = []            # (tag set handed back earlier, what it held then)
+        self.partner = None       # the other history of an interleaved pair
+
+    def case(self):
+        c = {"length": self.length, "ops": self.ops}
+        if self.rootopts:
+            c["root"] = self.rootopts
+        if self.partner is not None:
+            c["pair"] = self.partner
+        return c
 
     def dump(self):
         return dump_tree(self.root.fields)
 
     def do(self, op):
+        from harness import common
         assert not self.dead
         op = dict(op)
         self.ops.append(op)
         kind = op["op"]
+        if self.decor is not None and "k" not in op:
+            op["k"] = decorate(self.decor, op)
+        k = op.get("k") or {}
         inst = self.insts[op["inst"]] if "inst" in op else None
         mutating = kind in ("add", "call", "assign")
         if kind == "assign":
@@ -171,36 +337,81 @@ class Runner(object):
             op.pop("spare", None)
             if hints:
                 op["spare"] = hints          # model-only: where the float length has a spare bit (see RULE)
+        passed_tags = None
         try:
-            if kind == "add":
-                inst.add_field(op["ident"], length=op["length"], start_at=op["start"],
-                               tags=list(op["tags"]))
-                r = {"ok": None}
-            elif kind == "call":
-                new = inst(**dict((k, v) for k, v in op["kw"]))
-                self.insts.append(new)
-                r = {"ok": [[k, v] for k, v in new.field_values.items()]}
-            elif kind == "assign":
-                self.root.assign_fields()
-                r = {"ok": None}
-            elif kind == "value":
-                r = {"ok": inst.get_value(tag=op["tag"], field=op["field"])}
-            elif kind == "mask":
-                r = {"ok": inst.get_mask(tag=op["tag"], field=op["field"])}
-            elif kind == "tags":
-                r = {"ok": sorted(inst.get_tags(op["field"]))}
-            elif kind == "loc":
-                r = {"ok": list(inst.get_location_and_length(op["field"]))}
-            elif kind == "attr":
-                r = {"ok": getattr(inst, op["field"])}
-            else:
-                raise KeyError(kind)
+            with cpu_limit():
+                if kind == "add":
+                    passed_tags = tags_as(op["tags"], k.get("tags"))
+                    length = as_kind(op["length"], k.get("length"))
+                    start = as_kind(op["start"], k.get("start"))
+                    conv = k.get("conv", "kw")
+                    if conv == "pos":
+                        inst.add_field(op["ident"], length, start, passed_tags)
+                    elif conv == "mixed":
+                        inst.add_field(op["ident"], length, tags=passed_tags, start_at=start)
+                    else:
+                        inst.add_field(op["ident"], length=length, start_at=start, tags=passed_tags)
+                    r = {"ok": None}
+                elif kind == "call":
+                    vk = k.get("v") or []
+                    kw = dict((i, as_kind(v, vk[n] if n < len(vk) else None)) for n, (i, v) in enumerate(op["kw"]))
+                    new = inst(**kw)
+                    kw.clear()                       # the caller's dict is the caller's
+                    self.insts.append(new)
+                    r = {"ok": [[i, _i(v)] for i, v in new.field_values.items()]}
+                    if type(new) is not self.cls or new.fields is not self.root.fields or new.length != self.length:
+                        r["derived"] = [type(new).__name__, new.fields is self.root.fields, _i(new.length)]
+                elif kind == "assign":
+                    self.root.assign_fields()
+                    r = {"ok": None}
+                elif kind in ("value", "mask"):
+                    f = inst.get_value if kind == "value" else inst.get_mask
+                    conv = k.get("conv", "kw")
+                    if conv == "pos":
+                        r = {"ok": _i(f(op["tag"], op["field"]))}
+                    elif conv == "pos1":
+                        r = {"ok": _i(f(op["tag"], field=op["field"]))}
+                    else:
+                        r = {"ok": _i(f(tag=op["tag"], field=op["field"]))}
+                elif kind == "tags":
+                    got = inst.get_tags(op["field"]) if k.get("conv") == "pos" else inst.get_tags(field=op["field"])
+                    first = sorted(got)
+                    if k.get("edit"):
+                        # the caller edits the set it was handed back and asks again
+                        got.add("__edited__")
+                        if first:
+                            got.discard(first[0])
+                        again = sorted(inst.get_tags(op["field"]))
+                        r = {"ok": first} if again == first else {"ok": again, "changed_by_callers_edit": first}
+                    else:
+                        r = {"ok": first}
+                    self.kept.append((got, set(got)))
+                elif kind == "loc":
+                    got = (inst.get_location_and_length(op["field"]) if k.get("conv") == "pos"
+                           else inst.get_location_and_length(field=op["field"]))
+                    r = {"ok": [_i(x) for x in got]}
+                elif kind == "attr":
+                    r = {"ok": _i(getattr(inst, op["field"]))}
+                else:
+                    raise KeyError(kind)
         except (ValueError, LookupError, RecursionError) as e:
             r = {"err": err_name(e)}
             if r["err"] == "RecursionError":
                 self.dead = True
         except (TypeError, AssertionError, ArithmeticError, OverflowError) as e:
             r = {"err": err_name(e)}
+        except common.ImplHang as e:
+            _HANGS[0] += 1
+            r = {"err": "DidNotReturn"}
+            self.hung = (len(self.ops) - 1, str(e))
+            self.dead = True
+        if kind == "add" and k.get("edit") and passed_tags is not None:
+            # the caller edits the container it passed (the field's tags are the field's)
+            if isinstance(passed_tags, list):
+                passed_tags.append("__edited__")
+                del passed_tags[:1]
+            elif isinstance(passed_tags, set):
+                passed_tags.add("__edited__")
         if mutating and not self.dead:
             r["state"] = self.dump()
         self.results.append(r)
@@ -209,7 +420,8 @@ class Runner(object):
     # helpers for the generator
     def enabled(self, i):
         b = self.insts[i]
-        return [(ident, f) for ident, f in b.fields.enabled_fields(b.field_values)]
+        with cpu_limit():
+            return [(ident, f) for ident, f in b.fields.enabled_fields(b.field_values)]
 
     def unvalued(self, i):
         b = self.insts[i]
@@ -259,10 +471,26 @@ def _pick_value(rng, f, bad=False):
     return rng.choice([(1 << k) - 1, 1 << k])
 
 
+_NGEN = [0]
+ODD_TAGS = ["", "%s", "{}", "t 0"]      # legal tags (any string in a collection); never given in the string form
+
+
+def new_runner(rng, L):
+    """a fresh bit field for a generated history: in 30 % built another way (keyword / default length / IntEnum length /
+    a subclass of BitField), in 40 % with argument kinds and calling conventions varied per call"""
+    reload_rig()
+    root = None
+    if rng.random() < 0.3:
+        root = {"sub": rng.random() < 0.6, "ctor": rng.choice(["pos", "kw", "default"])}
+        if rng.random() < 0.3:
+            root["lkind"] = "enum"
+    return Runner(L, root, rng if rng.random() < 0.4 else None)
+
+
 def gen_history(rng, size, tight):
     USED_VALUES.clear()
     L = rng.choice([1, 2, 3, 4, 5, 6, 8, 8, 10, 12, 16, 16, 24, 32, 32, 64])
-    run = Runner(L)
+    run = new_runner(rng, L)
     errors = rng.random() < 0.5          # error stream enabled for this history
     explicit = rng.random() < 0.5        # explicit positions used in this history
     n_ops = rng.randrange(6, size)
@@ -293,6 +521,8 @@ def gen_history(rng, size, tight):
             tags = rng.sample(TAGS, rng.choice([0, 0, 0, 1, 1, 2]))
             if rng.random() < 0.1 and tags:
                 tags = tags + [tags[0]]
+            if rng.random() < 0.04:
+                tags = tags + [rng.choice(ODD_TAGS)]
             run.do({"op": "add", "inst": inst, "ident": ident, "length": length, "start": start, "tags": tags})
         elif r < 0.68:
             cand = run.unvalued(inst)
@@ -321,11 +551,11 @@ def gen_history(rng, size, tight):
             g = rng.random()
             if g < 0.25:
                 sel = rng.random()
-                run.do({"op": "value", "inst": inst, "tag": rng.choice(TAGS + ["tx"]) if sel < 0.3 else None,
+                run.do({"op": "value", "inst": inst, "tag": rng.choice(TAGS + ["tx"] + (ODD_TAGS if rng.random() < 0.15 else [])) if sel < 0.3 else None,
                         "field": fld if 0.3 <= sel < 0.6 else None})
             elif g < 0.5:
                 sel = rng.random()
-                run.do({"op": "mask", "inst": inst, "tag": rng.choice(TAGS + ["tx"]) if sel < 0.3 else None,
+                run.do({"op": "mask", "inst": inst, "tag": rng.choice(TAGS + ["tx"] + (ODD_TAGS if rng.random() < 0.15 else [])) if sel < 0.3 else None,
                         "field": fld if 0.3 <= sel < 0.6 else None})
             elif g < 0.7:
                 run.do({"op": "tags", "inst": inst, "field": fld})
@@ -334,10 +564,10 @@ def gen_history(rng, size, tight):
             else:
                 run.do({"op": "attr", "inst": inst, "field": fld})
     if run.dead:
-        return run
+        return seal(run)
     # tighten: restart with the smallest bit field that the hierarchy needs?  (done by the caller via `tight`)
     finish(rng, run)
-    return run
+    return seal(run)
 
 
 def big_value(rng, k=None):
@@ -351,7 +581,7 @@ def gen_wide_history(rng):
     """bit fields of 64-160 bits with automatically sized neighbours whose largest values are 2^k, 2^k +- 1"""
     USED_VALUES.clear()
     L = rng.choice([64, 64, 96, 128, 128, 160])
-    run = Runner(L)
+    run = new_runner(rng, L)
     names = list("abcd")[:rng.randrange(2, 5)]
     scale = {}
     selector = rng.random() < 0.5
@@ -395,7 +625,7 @@ def gen_wide_history(rng):
             if "ok" in r:
                 run.do({"op": "call", "inst": i, "kw": [["x", big_value(rng, kx)]]})
     if run.dead:
-        return run
+        return seal(run)
     if rng.random() < 0.25:
         run.do({"op": "assign"})
         if not run.dead and roots and rng.random() < 0.7:
@@ -404,8 +634,9 @@ def gen_wide_history(rng):
             if selector:
                 kw.append(["s", rng.randrange(2)])
             run.do({"op": "call", "inst": 0, "kw": kw})
-    finish(rng, run)
-    return run
+    if not run.dead:
+        finish(rng, run)
+    return seal(run)
 
 
 def finish(rng, run):
@@ -456,15 +687,131 @@ def tighten(run):
     return top
 
 
-def replay_ops(length, ops):
-    run = Runner(length)
+def replay_ops(length, ops, root=None, fresh=True):
+    if fresh:
+        reload_rig()
+    run = Runner(length, root)
     for op in ops:
         if run.dead:
             break
         if "inst" in op and op["inst"] >= len(run.insts):
             continue            # (retargeted histories: an earlier call failed) - the op is not part of the case
         run.do(op)
-    return run
+    return seal(run)
+
+
+def usable(run, op):
+    return not run.dead and not ("inst" in op and op["inst"] >= len(run.insts))
+
+
+def run_pair(case_a, case_b, first):
+    """two bit fields used alternately in one process (op by op; `first` says whose op comes first): each must behave
+    exactly as on its own - the model of each history knows nothing of the other"""
+    reload_rig()
+    ra = Runner(case_a["length"], case_a.get("root"))
+    rb = Runner(case_b["length"], case_b.get("root"))
+    qa, qb = list(case_a["ops"]), list(case_b["ops"])
+    turn = first
+    while qa or qb:
+        q, r = (qa, ra) if (turn == 0 and qa) or not qb else (qb, rb)
+        op = q.pop(0)
+        if usable(r, op):
+            r.do(op)
+        turn = 1 - turn
+    seal(ra)
+    seal(rb)
+    strip = lambda c: dict((k, v) for k, v in c.items() if k != "pair")
+    ra.partner = {"with": strip(case_b), "first": first}
+    rb.partner = {"with": strip(case_a), "first": 1 - first}
+    return ra, rb
+
+
+def twin_of(rng, case):
+    """the same history with ONE aspect changed (a length, a value, a tag, the bit-field length, one op dropped)"""
+    import copy
+    c = copy.deepcopy(dict((k, v) for k, v in case.items() if k != "pair"))
+    ops = c["ops"]
+    adds = [o for o in ops if o["op"] == "add"]
+    calls = [o for o in ops if o["op"] == "call" and o["kw"]]
+    what = rng.choice(["L", "len", "val", "tag", "drop", "start"])
+    if what == "len" and adds:
+        o = rng.choice(adds)
+        o["length"] = rng.choice([1, 2, 3]) if o["length"] is None else (None if rng.random() < 0.5 else o["length"] + 1)
+        o.get("k", {}).pop("length", None)
+    elif what == "val" and calls:
+        o = rng.choice(calls)
+        n = rng.randrange(len(o["kw"]))
+        o["kw"][n][1] = o["kw"][n][1] + 1 if rng.random() < 0.5 else (0 if o["kw"][n][1] else 1)
+        o.get("k", {}).pop("v", None)
+    elif what == "tag" and adds:
+        o = rng.choice(adds)
+        o["tags"] = [] if o["tags"] else [rng.choice(TAGS)]
+        o.get("k", {}).pop("tags", None)
+    elif what == "drop" and len(ops) > 2:
+        del ops[rng.randrange(len(ops))]
+    elif what == "start" and adds:
+        o = rng.choice(adds)
+        o["start"] = None if o["start"] is not None else rng.randrange(c["length"])
+        o.get("k", {}).pop("start", None)
+    else:
+        c["length"] = max(1, c["length"] + rng.choice([-1, 1]))
+        if c.get("root", {}).get("ctor") == "default":
+            c["root"]["ctor"] = "pos"
+    return c, what
+
+
+def scale_cases(rng, which):
+    """far beyond the usual size, a handful per run: hundreds of fields / scopes / instances, deep hierarchies, long
+    fields; nothing but the documented exceptions may come out"""
+    def add(inst, ident, length=None, start=None, tags=()):
+        return {"op": "add", "inst": inst, "ident": ident, "length": length, "start": start, "tags": list(tags)}
+    A = {"op": "assign"}
+    V = lambda i: {"op": "value", "inst": i, "tag": None, "field": None}
+    M = lambda i, t=None: {"op": "mask", "inst": i, "tag": t, "field": None}
+    if which == "flat":              # 300 neighbouring fields, some automatic, filling the bit field to its last bit
+        n = 300
+        ops = [add(0, "f%d" % i, rng.choice([1, 1, 2, None]), None, ["t0"] if i % 7 == 0 else []) for i in range(n)]
+        ops.append({"op": "call", "inst": 0, "kw": [["f%d" % i, rng.randrange(2)] for i in range(0, n, 3)]})
+        ops += [A, V(1), M(1), M(1, "t0")]
+        L = sum((o["length"] or 1) for o in ops if o["op"] == "add")
+        return L, ops
+    if which == "fan":               # 257 sibling scopes under one 9-bit selector, each with its own fields
+        ops = [add(0, "sel", 9)]
+        for v in range(257):
+            ops.append({"op": "call", "inst": 0, "kw": [["sel", v]]})
+            ops.append(add(v + 1, "x", rng.choice([1, 2, 3, None]), None, ["t1"] if v % 5 == 0 else []))
+            if v % 3 == 0:
+                ops.append(add(v + 1, "y%d" % (v % 4), 2))
+        ops.append(A)
+        nxt = 258
+        for v in (0, 128, 256):
+            ops.append({"op": "call", "inst": v + 1, "kw": [["x", 1]] + ([["y%d" % (v % 4), 2]] if v % 3 == 0 else [])})
+            ops += [V(nxt), M(nxt), M(nxt, "t1")]
+            nxt += 1
+        return 16, ops
+    if which == "deep":              # a chain of 100 nested scopes (every recursive method goes 100 deep)
+        d = 100
+        ops = []
+        for i in range(d):
+            ops.append(add(i, "f%d" % i, rng.choice([1, 1, None]), None, ["t2"] if i == d - 1 else []))
+            ops.append({"op": "call", "inst": i, "kw": [["f%d" % i, rng.randrange(2)]]})
+        ops += [A, V(d), M(d), M(d, "t2"), {"op": "tags", "inst": d, "field": "f0"}, V(d // 2), A]
+        return d + rng.choice([0, 3]), ops
+    if which == "insts":             # 600 instances of one bit field, values kept and read after the layout
+        ops = [add(0, "a"), add(0, "b"), add(0, "c", 3, 0)]
+        for i in range(600):
+            ops.append({"op": "call", "inst": 0, "kw": [["a", i], ["b", (i * 7919) % 1021], ["c", i % 8]]})
+        ops.append(A)
+        for i in (1, 2, 300, 599, 600):
+            ops += [V(i), M(i)]
+        return 32, ops
+    if which == "long":              # fields of hundreds of bits in a bit field of 1100 bits
+        ops = [add(0, "a", 500), add(0, "b"), add(0, "c", 64, 1000), add(0, "d"),
+               {"op": "call", "inst": 0, "kw": [["a", (1 << 500) - 1], ["b", 1 << 400], ["c", (1 << 64) - 1], ["d", 0]]},
+               {"op": "call", "inst": 0, "kw": [["a", 1 << 499], ["b", 5], ["c", 1 << 63], ["d", 1]]},
+               A, V(1), M(1), V(2), M(2), {"op": "loc", "inst": 1, "field": "b"}]
+        return 1100, ops
+    raise KeyError(which)
 
 
 # --------------------------------------------------------------------------
@@ -479,30 +826,56 @@ def complete_instances(run):
     for i, b in enumerate(run.insts):
         if run.unvalued(i):
             continue
-        fvkey = json.dumps(sorted(b.field_values.items()))
+        fvkey = json.dumps(sorted((k, _i(v)) for k, v in b.field_values.items()))
         if fvkey in seen:
             continue
         seen.add(fvkey)
         try:
-            key, mask = b.get_value(), b.get_mask()
+            key, mask = _i(b.get_value()), _i(b.get_mask())
             locs = []
             for ident, f in run.enabled(i):
                 s, l = b.get_location_and_length(ident)
-                locs.append({"ident": ident, "start": s, "len": l, "value": b.field_values[ident]})
+                locs.append({"ident": ident, "start": _i(s), "len": _i(l), "value": _i(b.field_values[ident])})
         except ValueError:
             continue
         tagged = []
         for t in TAGS:
             try:
-                tk, tm = b.get_value(tag=t), b.get_mask(tag=t)
+                tk, tm = _i(b.get_value(tag=t)), _i(b.get_mask(tag=t))
             except LookupError:
                 continue
             tl = [l for l in locs if t in b.get_tags(l["ident"])]
             tagged.append((t, tk, tm, tl))
-        out.append((i, [[k, v] for k, v in b.field_values.items()], key, mask, locs, tagged))
+        out.append((i, [[k, _i(v)] for k, v in b.field_values.items()], key, mask, locs, tagged))
         if len(out) >= 6:
             break
     return out
+
+
+def seal(run):
+    """end of a history (still in its own freshly loaded module): read every key, mask and position back and keep the
+    final tree and the instances' values - evaluated later against the Lean oracle, in batches"""
+    from harness import common
+    try:
+        with cpu_limit():
+            run.comp = complete_instances(run)
+    except common.ImplHang as e:
+        _HANGS[0] += 1
+        run.comp = []
+        if run.hung is None:
+            run.hung = (len(run.ops), "reading keys and masks back: " + str(e))
+    run.final = run.dump() if not run.dead else []
+    run.fvs = []
+    if not run.dead:
+        seen_fv = set()
+        for i, b in enumerate(run.insts):
+            fvk = json.dumps(sorted((k, _i(v)) for k, v in b.field_values.items()))
+            if fvk in seen_fv or len(seen_fv) >= 10:
+                continue
+            seen_fv.add(fvk)
+            run.fvs.append((i, [[k, _i(v)] for k, v in b.field_values.items()]))
+    run.kept_changed = [sorted(snap) for got, snap in run.kept if got != snap]
+    return run
 
 
 def eval_runs(ctx, runs):
@@ -518,6 +891,8 @@ def eval_runs(ctx, runs):
         last = None
         for oi, (op, r) in enumerate(zip(run.ops, run.results)):
             st = r.get("state")
+            if getattr(run, "sparse", False) and op["op"] != "assign" and oi % 40 and oi != len(run.ops) - 1:
+                continue            # scale cases: the invariant on every 40th tree and around assign_fields
             if st is not None and st != last:
                 ask("invariant", ri, (oi, op["op"], "ok" in r), op="invariant", length=run.length, entries=st)
                 last = st
@@ -525,8 +900,9 @@ def eval_runs(ctx, runs):
             if (len(pre) <= 11 and all(e["start"] is None for e in pre)
                     and all(e["length"] is not None or e["max"] < SPARE_FROM for e in pre)):
                 ask("floating", ri, oi, op="floating_fits", length=run.length, entries=pre)
-        comp = complete_instances(run)
-        final = run.dump() if not run.dead else []
+        if not hasattr(run, "comp"):
+            seal(run)
+        comp, final = run.comp, run.final
         for (i, fv, key, mask, locs, tagged) in comp:
             ask("key", ri, (i, None), op="key_oracle", entries=final, fv=fv, key=key, mask=mask, tag=None, locs=locs)
             for (t, tk, tm, tl) in tagged:
@@ -538,19 +914,13 @@ def eval_runs(ctx, runs):
                         key2=comp[b][2], mask2=comp[b][3])
         run.n_complete = len(comp)
         # the instance invariant (values_fit, inst_ok) on every instance the history created, complete or not
-        if not run.dead:
-            seen_fv = set()
-            for i, b in enumerate(run.insts):
-                fvk = json.dumps(sorted(b.field_values.items()))
-                if fvk in seen_fv or len(seen_fv) >= 10:
-                    continue
-                seen_fv.add(fvk)
-                ask("inst", ri, i, op="instance", entries=final, fv=[[k, v] for k, v in b.field_values.items()])
+        for i, fv in run.fvs:
+            ask("inst", ri, i, op="instance", entries=final, fv=fv)
 
     replies = ctx.lean(reqs)
     for (tag, ri, info), rep in zip(idx, replies):
         run = runs[ri]
-        case = {"length": run.length, "ops": run.ops}
+        case = run.case()
         if isinstance(rep, dict) and "proto_error" in rep:
             ctx.mismatch("c08.protocol", "driver: %r" % (rep,), case)
             continue
@@ -608,7 +978,42 @@ def eval_runs(ctx, runs):
                               "pairs that match each other" % info, case)
 
     for run in runs:
-        st = run.dump() if not run.dead else []
+        if run.hung is not None:
+            ctx.violation("did-not-return", "op %d of the history: the implementation was %s (the model terminates on "
+                          "every input)" % run.hung, run.case())
+        changed = run.kept_changed
+        if changed:
+            ctx.tag("kept-tag-set-changed")
+            ctx.mismatch("c08.kept", "a tag set handed back by get_tags changed after later calls (it held %r)"
+                         % (changed[0],), run.case())
+        kinds = [o.get("k") or {} for o in run.ops]
+        for o, k in zip(run.ops, kinds):
+            if o["op"] == "add" and k:
+                ctx.tag("tags_as_%s" % k.get("tags"), "add_%s" % k.get("conv"))
+                if k.get("edit"):
+                    ctx.tag("caller-edits-passed-tags")
+                for a in ("length", "start"):
+                    if a in k:
+                        ctx.tag("%s_as_%s" % (a, k[a]))
+            elif o["op"] == "call" and k:
+                for vk in k.get("v", []):
+                    if vk != "int":
+                        ctx.tag("value_as_%s" % vk)
+            elif o["op"] in ("value", "mask", "loc") and k:
+                ctx.tag("getter_%s" % k.get("conv"))
+            elif o["op"] == "tags" and k.get("edit"):
+                ctx.tag("caller-edits-returned-tags")
+        if run.rootopts:
+            ctx.tag("root_%s%s" % (run.rootopts.get("ctor", "pos"), "_subclass" if run.rootopts.get("sub") else ""))
+            if run.rootopts.get("lkind"):
+                ctx.tag("bitfield_length_as_%s" % run.rootopts["lkind"])
+        if run.partner is not None:
+            ctx.tag("pair_%s" % run.partner.get("kind", "other"))
+        if getattr(run, "scale", None):
+            ctx.tag("scale_%s" % run.scale)
+        if any("" in e["tags"] for e in run.final):
+            ctx.tag("empty-string-tag")
+        st = run.final
         scopes = len({json.dumps(e["path"]) for e in st})
         assigned_ok = any(o["op"] == "assign" and "ok" in r for o, r in zip(run.ops, run.results))
         for o, r in zip(run.ops, run.results):
@@ -625,7 +1030,7 @@ def eval_runs(ctx, runs):
             ctx.tag("top-bit-used")
         if any(len(k) > 1 for e in st for k in e["path"]):
             ctx.tag("multi-ident-child-key")
-        ctx.case({"length": run.length, "ops": run.ops},
+        ctx.case(run.case(),
                  scopes >= 2 and assigned_ok and getattr(run, "n_complete", 0) >= 1)
 
 
@@ -668,6 +1073,7 @@ def run(ctx):
         "more is accepted (double-precision log2 of the implementation; never fewer)",
         "field identifiers are distinct from BitField attribute names; tag and field are not both given to a getter",
         "the history ends at a RecursionError of _Tree.add_field (the tree is left half-built by the code)",
+        "integers are given as int, bool or IntEnum members (no numpy integers); identifiers are str; tags are strings",
     ]
     # hypothesis of the completeness theorems: the repaired scan bound (constant regenerated from the source)
     consts = ctx.lean([{"suite": "c08", "op": "consts"}])[0]
@@ -679,18 +1085,45 @@ def run(ctx):
         n *= 4
     rng = ctx.rng
     runs = [replay_ops(L, ops) for L, ops in fixed_cases()]
+    # scale: a handful of cases far beyond the usual size
+    for which in (["flat", "fan", "deep", "insts", "long"] if not ctx.quick or ctx.extended
+                  else rng.sample(["flat", "fan", "deep", "insts", "long"], 3)):
+        L, ops = scale_cases(rng, which)
+        big = replay_ops(L, ops)
+        big.scale, big.sparse = which, True
+        runs.append(big)
+    prev_case = [None]
+
+    def pairs_for(run_):
+        """one history in ten is also run interleaved, op by op, with a twin (one aspect changed) or with the previous
+        history, on two bit fields alive at the same time; both orders occur"""
+        if run_.dead or rng.random() >= 0.1:
+            prev_case[0] = run_.case()
+            return []
+        mine = dict((k, v) for k, v in run_.case().items() if k != "pair")
+        if prev_case[0] is None or rng.random() < 0.6:
+            other, what = twin_of(rng, mine)
+            kind = "twin_" + what
+        else:
+            other, kind = dict((k, v) for k, v in prev_case[0].items() if k != "pair"), "other"
+        ra, rb = run_pair(mine, other, rng.randrange(2))
+        ra.partner["kind"] = rb.partner["kind"] = kind
+        return [ra, rb]
     # wide bit fields with automatically sized fields around powers of two (float log2 of the implementation)
     n_wide = ctx.scale(400, 8000) * (4 if ctx.extended else 1)
     made_w = 0
-    while made_w < n_wide:
+    while made_w < n_wide and _HANGS[0] < 60:
         run_ = gen_wide_history(rng)
         runs.append(run_)
         made_w += 1
+        extra = pairs_for(run_)
+        runs += extra
+        made_w += len(extra)
         if not run_.dead and rng.random() < 0.5:
             top = tighten(run_)
             L2 = top if rng.random() < 0.7 else top - 1
             if 1 <= L2 != run_.length:
-                runs.append(replay_ops(L2, retarget(run_.ops, run_.length, L2)))
+                runs.append(replay_ops(L2, retarget(run_.ops, run_.length, L2), run_.rootopts))
                 made_w += 1
         if len(runs) >= 1500:
             eval_runs(ctx, runs)
@@ -698,12 +1131,15 @@ def run(ctx):
     ctx.tag("wide_histories_%d" % made_w)
     batch = 2500
     made = 0
-    while made < n:
-        while len(runs) < batch and made < n:
+    while made < n and _HANGS[0] < 60:
+        while len(runs) < batch and made < n and _HANGS[0] < 60:
             size = rng.choice([10, 16, 24, 40])
             run_ = gen_history(rng, size, False)
             runs.append(run_)
             made += 1
+            extra = pairs_for(run_)
+            runs += extra
+            made += len(extra)
             # the same history on the smallest bit field its layout needs, and one bit less
             if not run_.dead and rng.random() < 0.5:
                 top = tighten(run_)
@@ -711,11 +1147,15 @@ def run(ctx):
                     for L2 in ([top] if rng.random() < 0.6 else [top - 1]):
                         if L2 >= 1 and L2 != run_.length:
                             core = [o for o in run_.ops]
-                            runs.append(replay_ops(L2, retarget(core, run_.length, L2)))
+                            runs.append(replay_ops(L2, retarget(core, run_.length, L2), run_.rootopts))
                             made += 1
         eval_runs(ctx, runs)
         runs = []
-    if not ctx.quick:
+    if runs:
+        eval_runs(ctx, runs)
+    if _HANGS[0] >= 60:
+        ctx.tag("stopped-generating-after-60-calls-that-did-not-return")
+    elif not ctx.quick:
         exhaustive_small(ctx)
 
 
@@ -756,4 +1196,10 @@ def exhaustive_small(ctx):
 def replay(ctx, payload):
     ctx.extra["rule"] = RULE
     c = payload["case"]
-    eval_runs(ctx, [replay_ops(c["length"], c["ops"])])
+    if "pair" in c:
+        mine = dict((k, v) for k, v in c.items() if k != "pair")
+        eval_runs(ctx, list(run_pair(mine, c["pair"]["with"], c["pair"]["first"])))
+    else:
+        run_ = replay_ops(c["length"], c["ops"], c.get("root"))
+        run_.sparse = len(c["ops"]) > 150
+        eval_runs(ctx, [run_])
